@@ -20,13 +20,13 @@ V_CONTRACT
 void v_on_evt(m_mod_t *self, const m_queue_t *const evts)
 V_REQUIRES(V_CB_REQ(self) && V_Q_OK(evts) && evts->len > 0)                                     /*@C15.callback-runs-as-current-module*/
 V_ASSIGNS(V_CB_FRAME)
-V_ENSURES(g.evt_cb_calls == V_OLD(g.evt_cb_calls) + 1 && g.evt_cb_mod == self && g.evt_cb_q == evts && g.evt_cb_which == 0 && V_CB_ENS)
+V_ENSURES(g.evt_cb_calls == V_OLD(g.evt_cb_calls) + 1 && __CPROVER_pointer_equals(g.evt_cb_mod, self) && __CPROVER_pointer_equals(g.evt_cb_q, evts) && g.evt_cb_which == 0 && V_CB_ENS)
 ;
 V_CONTRACT
 void v_become_evt(m_mod_t *self, const m_queue_t *const evts)
 V_REQUIRES(V_CB_REQ(self) && V_Q_OK(evts) && evts->len > 0)                                     /*@C15.callback-runs-as-current-module*/
 V_ASSIGNS(V_CB_FRAME)
-V_ENSURES(g.evt_cb_calls == V_OLD(g.evt_cb_calls) + 1 && g.evt_cb_mod == self && g.evt_cb_q == evts && g.evt_cb_which == 1 && V_CB_ENS)
+V_ENSURES(g.evt_cb_calls == V_OLD(g.evt_cb_calls) + 1 && __CPROVER_pointer_equals(g.evt_cb_mod, self) && __CPROVER_pointer_equals(g.evt_cb_q, evts) && g.evt_cb_which == 1 && V_CB_ENS)
 ;
 
 V_CONTRACT
